@@ -102,7 +102,8 @@ def shared_task(task):
     return relabel(getattr(mod, task['shared_fn'])(task), 'C11')
 
 
-SHARED_C03 = ['min_amount', 'pot_amount', 'max_amount', 'verify_raising', 'verify_raise_to', 'complete_bet_or_raise_to']
+SHARED_C03 = ['min_amount', 'pot_amount', 'max_amount', 'verify_raising', 'verify_raise_to', 'complete_bet_or_raise_to',
+              'verify_folding', 'verify_checking_or_calling', 'verify_bring_in_posting']     # the forced bring-in of the stud variants
 
 
 def main(argv=None):
